@@ -171,6 +171,27 @@ def check(ctx):
     v = model.module_value("apischema.conversions.converters", "default_deserialization")
     ctx.check(norm(v) == "_deserializers.get", "C12.R4", "default_deserialization", v, "default_deserialization must be the exact-type lookup", None, None, detail="_deserializers.get")
 
+    # ---------------- R10: generic conversions are specialised at any depth
+    ctx.rule("C12.R10", "a generic conversion (source / target mentioning type variables) is specialised with the arguments of the visited type wherever the variables occur - List[List[T]] as well as List[T]: the test guarding substitute_type_vars looks at the alias's __parameters__, not at its top-level arguments only", floor=2)
+    n10 = 0
+    for q, side in ((f"{CV}.DeserializationVisitor._has_conversion", "source"), (f"{CV}.SerializationVisitor._has_conversion", "target")):
+        hc = model.func(q)
+        for n in walk_no_nested(hc.node):
+            if isinstance(n, ast.If) and any(isinstance(c, ast.Call) and dotted(c.func) == "substitute_type_vars" and c.args and norm(c.args[0]) == f"conv.{side}" for b in n.body if not isinstance(b, (ast.If, ast.For, ast.While, ast.Try)) for c in ast.walk(b)):
+                n10 += 1
+                texts = [norm(n.test)]
+                for c in ast.walk(n.test):
+                    if isinstance(c, ast.Call) and isinstance(c.func, ast.Name):
+                        tq = model.resolve_name(hc.module, c.func.id)
+                        if tq in model.functions:
+                            texts.append(norm(model.functions[tq].node))
+                deep = any("__parameters__" in t for t in texts)
+                shallow = any("get_args" in t and "is_type_var" in t for t in texts) and not deep
+                ctx.check(deep and not shallow, "C12.R10", f"{q}:{side}", None,
+                          f"`if {short(n.test, 70)}` only sees type variables that are direct arguments of conv.{side}: with `def f(l: List[List[T]]) -> W[T]`, deserialize(W[int], [['a']], conversion=f) is accepted because the source stays List[List[T]] (T unconstrained) instead of List[List[int]]",
+                          hc, n, detail=f"type variables of conv.{side} found through __parameters__")
+    ctx.require(n10 == 2, f"guards of substitute_type_vars in _has_conversion: {n10} found")
+
     # ---------------- R9: inheritance of a lazily registered serializer
     ctx.rule("C12.R9", "a serializer registered lazily is inherited by subclasses exactly as if it were registered directly: default_serialization inherits bare converters and Conversions whose `inherited` is None / True, and LazyConversion.inherited answers the same for what the lazy getter returns", floor=2)
     li = model.func("apischema.conversions.conversions.LazyConversion.inherited")
@@ -243,6 +264,7 @@ def check(ctx):
 
 
 def mutants(mb):
+    mb.add_text("generic-conversion-top-level-vars", "apischema/conversions/visitor.py", "    return is_type_var(tp) or (\n        not isinstance(tp, type) and bool(getattr(tp, \"__parameters__\", ()))\n    )\n", "    from apischema.utils import get_args2\n\n    return is_type_var(tp) or any(map(is_type_var, get_args2(tp)))\n", "C12.R10", "_has_conversion")
     mb.add_text("lazy-bare-converter-not-inherited", "apischema/conversions/conversions.py", "        if isinstance(conversion, Conversion):\n            return conversion.inherited\n        # a bare converter is inherited, as when it is registered directly\n        return None if conversion is not None else False\n", "        return isinstance(conversion, Conversion) and conversion.inherited\n", "C12.R9", "bare-converter")
     CVp = "apischema/conversions/visitor.py"
     D = "apischema/deserialization/__init__.py"
